@@ -528,6 +528,8 @@ def Ctx.opSetDesc (c : Ctx) (a : Actor) (tn : TName) (o : SetDescOpts) : Ctx :=
     match acc with
     | .error _ => c.emit a.sid (ctrl 400 tn)
     | .ok accUpd =>
+    -- private data belongs to a subscription: a user who is not subscribed has none to change
+    if (t.pud? a.uid).isNone ∧ o.priv ≠ .absent then c.emit a.sid (ctrl 403 tn) else
     let (npub, pubCh) := if isOwnerReq then mergeTok t.pub o.pub else (t.pub, false)
     let (npriv, privCh) := mergeTok (t.pud a.uid).priv o.priv
     let coreUpd := accUpd.isSome ∨ pubCh
